@@ -766,4 +766,116 @@ theorem roundRat_neg (num : Int) (den : Nat) (hn : num ≠ 0) : roundRat (-num) 
       simp only [negR]
       rw [negBits_encode _ _ (roundMag_rep _ _ (by omega) (by omega))]
 
+/-! ## monotonicity -/
+
+theorem sval_repU (num : Int) (den : Nat) (hd : 0 < den) : RepU (sval num den).natAbs := by
+  rw [sval_natAbs]; exact roundMag_repU _ _ hd
+
+theorem sval_congr (num num' : Int) (den den' : Nat) (hd : 0 < den) (hd' : 0 < den')
+    (h : num * den' = num' * den) : sval num den = sval num' den' := by
+  have h1 := roundRat_congr num num' den den' hd hd' h
+  have hmag : roundMag num.natAbs den = roundMag num'.natAbs den' := by
+    apply roundMag_congr _ _ _ _ hd hd'
+    have := congrArg Int.natAbs h
+    simpa [Int.natAbs_mul] using this
+  have h1 : (0 : Int) < den := by exact_mod_cast hd
+  have h2 : (0 : Int) < den' := by exact_mod_cast hd'
+  have hsign : num < 0 ↔ num' < 0 := by
+    constructor
+    · intro hn
+      have : num * den' < 0 := Int.mul_neg_of_neg_of_pos hn h2
+      rw [h] at this
+      by_contra hc
+      have : 0 ≤ num' * (den : Int) := Int.mul_nonneg (by omega) (by omega)
+      omega
+    · intro hn
+      have : num' * den < 0 := Int.mul_neg_of_neg_of_pos hn h1
+      rw [← h] at this
+      by_contra hc
+      have : 0 ≤ num * (den' : Int) := Int.mul_nonneg (by omega) (by omega)
+      omega
+  unfold sval
+  rw [hmag]
+  by_cases hn : num < 0
+  · rw [if_pos hn, if_pos (hsign.mp hn)]
+  · rw [if_neg hn, if_neg (fun h => hn (hsign.mpr h))]
+
+/-- if the rounding of `q` lies above another double `z`, then `q` is at least the midpoint -/
+theorem above_mid (num : Int) (den : Nat) (hd : 0 < den) (z : Int) (hz : RepU z.natAbs) (hlt : z < sval num den) :
+    (sval num den + z) * den ≤ 2 * ((scale : Int) * num) := by
+  have h := sval_nearest num den hd z hz
+  have hD : (0 : Int) < den := by exact_mod_cast hd
+  have h1 : z * den < sval num den * den := Int.mul_lt_mul_of_pos_right hlt hD
+  rw [Int.add_mul]
+  generalize (scale : Int) * num = u at *
+  generalize sval num den * den = p1 at *
+  generalize z * (den : Int) = p2 at *
+  omega
+
+theorem below_mid (num : Int) (den : Nat) (hd : 0 < den) (z : Int) (hz : RepU z.natAbs) (hlt : sval num den < z) :
+    2 * ((scale : Int) * num) ≤ (sval num den + z) * den := by
+  have h := sval_nearest num den hd z hz
+  have hD : (0 : Int) < den := by exact_mod_cast hd
+  have h1 : sval num den * den < z * den := Int.mul_lt_mul_of_pos_right hlt hD
+  rw [Int.add_mul]
+  generalize (scale : Int) * num = u at *
+  generalize sval num den * den = p1 at *
+  generalize z * (den : Int) = p2 at *
+  omega
+
+/-- the unbounded-exponent rounding is monotone in the rational -/
+theorem sval_mono (n1 n2 : Int) (d1 d2 : Nat) (h1 : 0 < d1) (h2 : 0 < d2) (h : n1 * d2 ≤ n2 * d1) :
+    sval n1 d1 ≤ sval n2 d2 := by
+  by_contra hc
+  have hlt : sval n2 d2 < sval n1 d1 := by omega
+  have a1 := above_mid n1 d1 h1 (sval n2 d2) (sval_repU n2 d2 h2) hlt
+  have a2 := below_mid n2 d2 h2 (sval n1 d1) (sval_repU n1 d1 h1) hlt
+  have hD1 : (0 : Int) < d1 := by exact_mod_cast h1
+  have hD2 : (0 : Int) < d2 := by exact_mod_cast h2
+  have hS : (0 : Int) < scale := by exact_mod_cast scale_pos
+  -- `2 S n2 d1 ≤ T d1 d2 ≤ 2 S n1 d2`
+  have b1 : (sval n1 d1 + sval n2 d2) * d1 * d2 ≤ 2 * ((scale : Int) * n1) * d2 :=
+    Int.mul_le_mul_of_nonneg_right a1 (by omega)
+  have b2 : 2 * ((scale : Int) * n2) * d1 ≤ (sval n2 d2 + sval n1 d1) * d2 * d1 :=
+    Int.mul_le_mul_of_nonneg_right a2 (by omega)
+  have e1 : (sval n2 d2 + sval n1 d1) * d2 * d1 = (sval n1 d1 + sval n2 d2) * d1 * d2 := by ring
+  have e2 : 2 * ((scale : Int) * n1) * d2 = (2 * scale) * (n1 * d2) := by ring
+  have e3 : 2 * ((scale : Int) * n2) * d1 = (2 * scale) * (n2 * d1) := by ring
+  rw [e1] at b2
+  rw [e2] at b1
+  rw [e3] at b2
+  have b3 : (2 * (scale : Int)) * (n2 * d1) ≤ (2 * scale) * (n1 * d2) := Int.le_trans b2 b1
+  have b4 : n2 * d1 ≤ n1 * d2 := Int.le_of_mul_le_mul_left b3 (by omega)
+  have heq : n1 * d2 = n2 * d1 := by omega
+  have := sval_congr n1 n2 d1 d2 h1 h2 heq
+  omega
+
+/-- **monotone**: `q1 ≤ q2` implies `round q1 ≤ round q2` in the order of doubles (overflow = the infinities) -/
+theorem roundRat_mono (n1 n2 : Int) (d1 d2 : Nat) (h1 : 0 < d1) (h2 : 0 < d2) (h : n1 * d2 ≤ n2 * d1) :
+    Ext.le (roundRat n1 d1).ext (roundRat n2 d2).ext = true := by
+  have hm := sval_mono n1 n2 d1 d2 h1 h2 h
+  rw [roundRat_ext n1 d1 h1, roundRat_ext n2 d2 h2]
+  have hs1 := sval_natAbs n1 d1
+  have hs2 := sval_natAbs n2 d2
+  obtain ⟨K, hK⟩ : ∃ K, K = 2098 := ⟨_, rfl⟩
+  rw [← hK]
+  have l1 : (roundMag n1.natAbs d1).log2 < K ↔ (sval n1 d1).natAbs < 2 ^ K := by
+    rw [hs1]; exact log2_lt_iff _ K (by omega)
+  have l2 : (roundMag n2.natAbs d2).log2 < K ↔ (sval n2 d2).natAbs < 2 ^ K := by
+    rw [hs2]; exact log2_lt_iff _ K (by omega)
+  clear hs1 hs2
+  have hv1 : (n1 < 0 ∧ sval n1 d1 ≤ 0) ∨ (¬ n1 < 0 ∧ 0 ≤ sval n1 d1) := by
+    unfold sval; split <;> omega
+  have hv2 : (n2 < 0 ∧ sval n2 d2 ≤ 0) ∨ (¬ n2 < 0 ∧ 0 ≤ sval n2 d2) := by
+    unfold sval; split <;> omega
+  generalize (roundMag n1.natAbs d1).log2 = L1 at *
+  generalize (roundMag n2.natAbs d2).log2 = L2 at *
+  generalize sval n1 d1 = v1 at *
+  generalize sval n2 d2 = v2 at *
+  have hB : 0 < 2 ^ K := Nat.two_pow_pos K
+  generalize 2 ^ K = B at *
+  by_cases c1 : L1 < K <;> by_cases c2 : L2 < K <;>
+    by_cases s1 : n1 < 0 <;> by_cases s2 : n2 < 0 <;> simp [c1, c2, s1, s2, Ext.le] <;>
+    (have l1' := l1.not; have l2' := l2.not; have l1m := l1.mp; have l2m := l2.mp; omega)
+
 end Yaql.Props.FloatRound
